@@ -7,6 +7,7 @@ import (
 	"io/fs"
 
 	"github.com/wader/fq/pkg/bitio"
+	"github.com/wader/fq/pkg/scalar"
 	"github.com/wader/gojq"
 )
 
@@ -65,4 +66,10 @@ func VerifC13BitsFormat(v any, nbytes int) (string, error) {
 		return "", err
 	}
 	return fmt.Sprintf("%v", r), nil
+}
+
+// VerifC13PreviewString runs the real previewValue (preview.go: the one-line value preview of
+// the tree dump) on a string with the given string_truncate.
+func VerifC13PreviewString(s string, stringTruncate int) string {
+	return previewValue(s, scalar.DisplayFormat(0), &Options{StringTruncate: stringTruncate})
 }
